@@ -36,7 +36,14 @@ import (
 //	                (WAL gc of a drained log, WAL drop + re-create): the handler of an open stream stays bound to the closed partition
 //	lr:<mode>       leader restarts: keep | back<j> (whole directory restored to the state j messages ago) |
 //	                backcg<j> (log restored, consumer group meta keeps its newer content)
-//	off | on        follower offline / online notification through the state manager
+//	                onlineRecheckRace (the follower is offline when IsReady asks; IsReady raises its suspend flag and asks the
+//	                state manager again before it parks; the follower's node-startup event is processed exactly in between,
+//	                holding the state manager's lock while it notifies the replicator)
+//	off             node-failure event of the follower processed by the leader's state manager: the node leaves the live
+//	                node map, the watchers are told, the follower's pooled connection is closed and removed (every client
+//	                created on it is dead from then on, streams over it break)
+//	on | on:moved   node-startup event of the follower (same address | another address: what ran over connections to the
+//	                old address is dead, calls through clients bound to them are refused)
 //	gc              leader Sync + GC (partition.IsExpire)
 //	land            a follower append left in flight by fault inflightPut reaches the follower's queue now
 type event struct {
@@ -56,6 +63,11 @@ func (e event) String() string {
 			return "s:" + e.Fault
 		}
 		return "s"
+	case "on":
+		if e.Mode != "" {
+			return "on:" + e.Mode
+		}
+		return "on"
 	case "fs", "lr":
 		if strings.HasPrefix(e.Mode, "back") {
 			return fmt.Sprintf("%s:%s%d", e.Kind, e.Mode, e.J)
@@ -71,6 +83,8 @@ func parseEvent(tok string) (event, error) {
 		return event{Kind: tok}, nil
 	case strings.HasPrefix(tok, "s:"):
 		return event{Kind: "s", Fault: tok[2:]}, nil
+	case tok == "on:moved":
+		return event{Kind: "on", Mode: "moved"}, nil
 	case strings.HasPrefix(tok, "a"):
 		n, err := strconv.Atoi(tok[1:])
 		return event{Kind: "a", N: n}, err
@@ -98,7 +112,7 @@ func scriptString(evs []event) string {
 	return strings.Join(s, " ")
 }
 
-var stepFaults = []string{"send", "reqLost", "respLost", "getAck", "reset", "resetRespLost", "createClient", "streamOpen", "putErr", "wipeBeforeStream", "inflightPut", "onlineRace"}
+var stepFaults = []string{"send", "reqLost", "respLost", "getAck", "reset", "resetRespLost", "createClient", "streamOpen", "putErr", "wipeBeforeStream", "inflightPut", "onlineRace", "onlineRecheckRace"}
 
 // ---------------------------------------------------------------------------------------------
 // observations
@@ -187,6 +201,7 @@ type driver struct {
 	lineL, lineF  map[int64]int // position -> uid: what each log contains (the follower's as far as it was ever read)
 
 	ackArmed           bool
+	followerLossTick   int    // event counter at the follower's last log loss (0: none)
 	leaderLostNoHS     bool   // leader restarted from an older log and no handshake has completed since
 	leaderLostMode     string // back | backcg
 	lostFrom, lostTo   int64  // positions the leader lost since its last completed handshake
@@ -201,6 +216,13 @@ type driver struct {
 	hsAckBad           bool // the last completed handshake itself left the leader's ack beyond the follower
 
 	wipedAfterHandshake bool // fault wipeBeforeStream fired during the current Prepare
+
+	// life cycle of the follower's pooled connection on the leader
+	offClosedConn    bool // a node-failure event closed the pooled connection and the follower has not come back yet
+	backSameAddr     bool // ... and the follower came back at the same address (a handshake is due on a NEW connection)
+	lifecycleCounted bool
+	closedConnCalls  int // calls the replicator made through a client bound to a closed connection (whole sequence)
+	staleAddrCalls   int // calls through a client bound to a connection to an address the follower left
 
 	followerChangedBehindHandshake bool // during the current event
 
@@ -338,10 +360,10 @@ func (d *driver) run(evs []event) {
 // only copied while the script still contains such a restart.
 func (d *driver) snapshots() {
 	if d.evIdx < d.lastLeaderBack {
-		d.w.snap("l", d.evIdx, d.lineL)
+		d.w.snap("l", d.evIdx, d.lineL, d.tick, !d.ackArmed)
 	}
 	if d.evIdx < d.lastFollowerBack {
-		d.w.snap("f", d.evIdx, d.lineF)
+		d.w.snap("f", d.evIdx, d.lineF, d.tick, !d.ackArmed)
 	}
 }
 
@@ -384,7 +406,7 @@ func (d *driver) exec(e event) {
 				d.count("fault.follower_log_recreated_behind_stream.open_stream_left_on_closed_partition", 1)
 			}
 			if d.lastF >= 0 {
-				d.ackArmed = false // the follower lost its log; the leader's ack is ahead until the next handshake
+				d.followerLostLog() // the leader's ack is ahead until the next handshake
 			}
 			d.lineF = map[int64]int{}
 			d.faultSeen, d.hsAfterFault = true, false
@@ -392,11 +414,35 @@ func (d *driver) exec(e event) {
 	case "lr":
 		d.doLeaderRestart(e)
 	case "off":
-		d.w.offline()
+		wasLive, closedConn, killed := d.w.offline()
 		d.count("fault.offline_notification", 1)
+		if !wasLive {
+			d.count("fault.offline_notification.node_not_live(ignored_by_state_manager)", 1)
+		}
+		if closedConn {
+			d.count("fault.offline_notification.closed_pooled_connection", 1)
+			d.offClosedConn, d.backSameAddr = true, false
+		}
+		if killed > 0 {
+			d.count("fault.offline_notification.open_stream_killed", 1)
+			d.faultSeen, d.hsAfterFault = true, false
+		}
 	case "on":
-		woken, ready := d.w.online()
+		moved := e.Mode == "moved"
+		woken, ready := d.w.online(moved)
 		d.count("fault.online_notification", 1)
+		if moved {
+			d.count("fault.online_notification.follower_moved_to_other_address", 1)
+			d.faultSeen, d.hsAfterFault = true, false
+			d.offClosedConn, d.backSameAddr = false, false
+		} else if d.offClosedConn {
+			d.offClosedConn, d.backSameAddr = false, true
+			d.count("lifecycle.follower_back_at_same_address_after_its_connection_was_closed", 1)
+		}
+		if d.w.deadlocked {
+			d.reportDeadlock(pre)
+			return
+		}
 		if d.w.notWoken {
 			d.upstreamViolated = true
 			d.violate("C08/no-resync/online-notification-does-not-wake-parked-replicator",
@@ -408,6 +454,7 @@ func (d *driver) exec(e event) {
 			d.count("handshake.woken_by_online_notification", 1)
 			// the parked Prepare ran its handshake now
 			d.afterPrepare(pre, ready, false)
+			d.harvestConnObs()
 			d.w.tr.clearObs()
 		}
 	case "land":
@@ -442,6 +489,10 @@ func (d *driver) exec(e event) {
 
 func (d *driver) doAppend(n int) {
 	w := d.w
+	if n > 0 && d.backSameAddr && !d.lifecycleCounted {
+		d.lifecycleCounted = true
+		d.count("lifecycle.sequences_with_offline_online_at_same_address_then_append", 1)
+	}
 	for i := 0; i < n; i++ {
 		q := w.lLog.Queue()
 		pos := q.AppendedSeq() + 1
@@ -525,8 +576,15 @@ func (d *driver) doFollowerStart(e event) {
 	}
 	if lost {
 		// the leader may hold an acknowledgement for positions the follower no longer has until the next handshake
-		d.ackArmed = false
+		d.followerLostLog()
 	}
+}
+
+// followerLostLog: the follower lost (part of) its log; until the next completed handshake the leader cannot know, and
+// its ack for the follower may be ahead of what the follower holds.
+func (d *driver) followerLostLog() {
+	d.ackArmed = false
+	d.followerLossTick = d.tick
 }
 
 func copyLine(m map[int64]int) map[int64]int {
@@ -578,6 +636,14 @@ func (d *driver) doLeaderRestart(e event) {
 			return
 		}
 		d.lineL = copyLine(pick.line)
+		if d.ackArmed && (pick.ackSuspended || d.followerLossTick > pick.tick) {
+			// the image is from before the follower's last log loss (or from the time between that loss and the next
+			// handshake): its ack for the follower was right when it was written, the follower has lost those
+			// positions since, and the handshake that had told the leader so is undone by going back to the image.
+			// Same situation as right after the follower's loss: the ack may be ahead until the next handshake.
+			d.ackArmed = false
+			d.count("oracle.ack_check_suspended_by_leader_image_older_than_follower_log_loss", 1)
+		}
 		d.count("fault.leader_restart.lost_tail."+e.Mode, 1)
 		d.count("fault.leader_restart.lost_tail.by_"+bucket(int64(e.J)), 1)
 		if e.J > 0 {
@@ -612,6 +678,10 @@ func (d *driver) arm(fault string) {
 	if fault == "onlineRace" {
 		d.w.onlineRaceFired = false
 		d.w.armOnlineRace()
+		return
+	}
+	if fault == "onlineRecheckRace" {
+		d.w.armRecheckWindow()
 		return
 	}
 	if fault == "wipeBeforeStream" {
@@ -687,6 +757,11 @@ func (d *driver) doStep(fault string, pre obs) {
 	}
 	putErrsBefore := atomic.LoadInt32(&w.putErrs)
 	ready, parked := w.prepare()
+	if w.deadlocked {
+		d.count("fault.fired.onlineRecheckRace", 1)
+		d.reportDeadlock(pre)
+		return
+	}
 	d.afterPrepare(pre, ready, parked)
 	if ready && !parked {
 		if w.lRep.Pending() > 0 {
@@ -705,11 +780,42 @@ func (d *driver) doStep(fault string, pre obs) {
 		d.count("fault.fired."+f, 1)
 		d.faultSeen, d.hsAfterFault = true, false
 	}
+	d.disarm()
+	if w.recheckWindowFired {
+		// the node-startup event was processed inside the window and both sides went on
+		w.recheckWindowFired = false
+		fired = append(fired, "onlineRecheckRace")
+		d.count("fault.fired.onlineRecheckRace", 1)
+		d.count("fault.fired.onlineRecheckRace.event_completed_and_replicator_went_on", 1)
+		d.faultSeen = true
+	}
 	if fault != "" && len(fired) == 0 {
 		d.count("fault.armed_but_not_reached", 1)
 	}
-	d.disarm()
+	d.harvestConnObs()
 	w.tr.clearObs()
+}
+
+// harvestConnObs adds what the step saw of the connection life cycle to the sequence's totals.
+func (d *driver) harvestConnObs() {
+	t := d.w.tr
+	t.obs(func() {
+		d.closedConnCalls += t.obsClosedConn
+		d.staleAddrCalls += t.obsStaleAddr
+		d.count("lifecycle.calls_through_client_of_closed_connection", t.obsClosedConn)
+		d.count("lifecycle.calls_through_client_of_connection_to_left_address", t.obsStaleAddr)
+		d.count("lifecycle.connections_dialled", t.obsConnDialled)
+	})
+}
+
+// reportDeadlock: the state manager's node-startup event and the replicator wait for each other (see notifierDeadlocked).
+func (d *driver) reportDeadlock(pre obs) {
+	d.upstreamViolated = true
+	d.violate("C08/no-resync/online-notification-deadlocks-with-liveness-recheck",
+		"the follower's node-startup event holds the state manager's lock and is blocked sending the online notification to the replicator "+
+			"(handleNodeStateChangeEvent), the replicator - suspend flag raised, not yet receiving - is blocked in GetLiveNode on that lock: "+
+			"neither moves again, the channel (and the leader's state manager) is stuck for ever (%s)", pre.String())
+	d.res.Fatal = "stop: state manager and replicator deadlocked"
 }
 
 // afterPrepare classifies the handshake that VerifReplicaPrepare just ran (coverage) and checks what a completed
@@ -744,7 +850,13 @@ func (d *driver) afterPrepare(pre obs, ready, parked bool) {
 		branch = "create_client_failed"
 	case len(t.obsGetAck) == 0:
 		branch = "get_ack_failed"
-		if !d.w.fUp {
+		switch {
+		case t.obsClosedConn > 0:
+			// the call never left the leader: the client is bound to a connection that has been closed
+			branch = "get_ack_failed.client_bound_to_closed_connection"
+		case t.obsStaleAddr > 0:
+			branch = "get_ack_failed.client_bound_to_connection_to_left_address"
+		case !d.w.fUp:
 			branch = "get_ack_failed.follower_down"
 		}
 	default:
@@ -784,13 +896,17 @@ func (d *driver) afterPrepare(pre obs, ready, parked bool) {
 		return
 	}
 	d.count("handshake.completed", 1)
+	if cn := t.lastClientConn; cn != nil && cn.reopened && t.obsConnDialled > 0 {
+		// the node-failure event closed the previous connection to this address; this handshake dialled a new one
+		d.count("lifecycle.handshake_completed_over_connection_reopened_after_node_failure", 1)
+	}
 	if d.wipedAfterHandshake {
 		// the handshake completed, then the follower lost its log before the stream was created: what the handshake
 		// established cannot be read off the state any more, and the leader's ack is ahead until the next handshake
 		d.wipedAfterHandshake = false
 		d.count("handshake.completed.then_follower_lost_log_before_stream(postcondition_not_judged)", 1)
 		d.leaderLostNoHS = false
-		d.ackArmed = false
+		d.followerLostLog()
 		d.lastHS = nil
 		return
 	}
@@ -1054,6 +1170,22 @@ func (d *driver) progress() {
 	w := d.w
 	d.progressPhase = true
 	d.evIdx = len(d.events)
+	closedBefore, staleBefore := d.closedConnCalls, d.staleAddrCalls
+	// deadClient names, for a channel that does not come back, what its handshakes after the last fault ran into
+	deadClient := func(o obs) string {
+		if o.State == int(models.ReplicatorReadyState) {
+			return ""
+		}
+		switch {
+		case d.closedConnCalls > closedBefore:
+			return fmt.Sprintf("client-bound-to-closed-connection|%d calls after the last fault went through a client whose connection had been closed "+
+				"(by the follower's node-failure event); the pool would have dialled a new one", d.closedConnCalls-closedBefore)
+		case d.staleAddrCalls > staleBefore:
+			return fmt.Sprintf("client-bound-to-connection-to-left-address|%d calls after the last fault went through a client whose connection goes to an address "+
+				"the follower no longer listens at (it registered with another one)", d.staleAddrCalls-staleBefore)
+		}
+		return ""
+	}
 	if w.hasParkedPut() {
 		d.exec(event{Kind: "land"})
 	}
@@ -1114,6 +1246,12 @@ func (d *driver) progress() {
 		stuckSymptom = symptomOf(o)
 		if !(o.State == int(models.ReplicatorReadyState) && o.C == o.A) {
 			// the leader has something to do (handshake or messages to send) and does not get it done
+			if dc := deadClient(o); dc != "" {
+				parts := strings.SplitN(dc, "|", 2)
+				d.violate("C08/no-resync/"+parts[0], "after the last fault %d steps (pending %d + 8) did not bring the follower to the leader's log: %s; replicator state message %q; %s",
+					steps, pending, stuck.String(), stuck.Msg, parts[1])
+				return
+			}
 			d.violate("C08/no-resync/"+stuckSymptom, "after the last fault %d steps (pending %d + 8) did not bring the follower to the leader's log: %s; replicator state message %q",
 				steps, pending, stuck.String(), stuck.Msg)
 			return
@@ -1161,6 +1299,12 @@ func (d *driver) progress() {
 		if stuckSymptom != "" {
 			d.count("progress.idle_leader_resynchronised_by_next_append", 1)
 		}
+		return
+	}
+	if dc := deadClient(o); dc != "" {
+		parts := strings.SplitN(dc, "|", 2)
+		d.violate("C08/no-resync/"+parts[0], "after the last fault (state then: %s) one more append did not reach the follower within %d steps: %s; replicator state message %q; %s",
+			before.String(), n, o.String(), o.Msg, parts[1])
 		return
 	}
 	if stuckSymptom != "" {
@@ -1236,14 +1380,39 @@ func genSequence(rnd *rand.Rand, idx int, maxLen int) []event {
 		}
 		evs = append(evs, event{Kind: "fsw"}, event{Kind: "a", N: 1 + rnd.Intn(3)}, event{Kind: "s"}, event{Kind: "s"})
 	}
-	if directed == 2 && rnd.Intn(3) == 0 {
-		// the follower flaps while the leader is about to handshake
-		n0 := 1 + rnd.Intn(3)
-		evs = append(evs, event{Kind: "a", N: n0 + 1})
-		for i := 0; i < n0; i++ {
-			evs = append(evs, event{Kind: "s"})
+	if directed == 2 {
+		switch y := rnd.Intn(6); y {
+		case 0, 1, 2:
+			// the follower flaps while the leader is about to handshake: its node-startup event is processed right after
+			// IsReady was told "not live" (onlineRace), or between IsReady's suspend flag and its second look at the live
+			// nodes (onlineRecheckRace: the event holds the state manager's lock while it notifies the replicator)
+			n0 := 1 + rnd.Intn(3)
+			evs = append(evs, event{Kind: "a", N: n0 + 1})
+			for i := 0; i < n0; i++ {
+				evs = append(evs, event{Kind: "s"})
+			}
+			race := "onlineRace"
+			if y == 2 {
+				race = "onlineRecheckRace"
+			}
+			evs = append(evs, event{Kind: "off"}, event{Kind: "rst"}, event{Kind: "s"}, event{Kind: "s", Fault: race})
+		case 3, 4:
+			// life cycle of the follower's pooled connection: established channel, node failure (the state manager closes
+			// the connection), appends while it is away, node startup at the same (or another) address, further appends
+			n0 := 1 + rnd.Intn(3)
+			evs = append(evs, event{Kind: "a", N: n0})
+			for i := 0; i < n0; i++ {
+				evs = append(evs, event{Kind: "s"})
+			}
+			evs = append(evs, event{Kind: "off"})
+			if m := rnd.Intn(3); m > 0 {
+				evs = append(evs, event{Kind: "a", N: m})
+			}
+			if rnd.Intn(2) == 0 {
+				evs = append(evs, event{Kind: "s"})
+			}
+			evs = append(evs, genOnline(rnd), event{Kind: "a", N: 1 + rnd.Intn(2)}, event{Kind: "s"}, event{Kind: "s"})
 		}
-		evs = append(evs, event{Kind: "off"}, event{Kind: "rst"}, event{Kind: "s"}, event{Kind: "s", Fault: "onlineRace"})
 	}
 	for len(evs) < maxLen {
 		x := rnd.Intn(100)
@@ -1252,7 +1421,7 @@ func genSequence(rnd *rand.Rand, idx int, maxLen int) []event {
 			evs = append(evs, genFollowerStart(rnd))
 			down = false
 		case off && x < 25:
-			evs = append(evs, event{Kind: "on"})
+			evs = append(evs, genOnline(rnd))
 			off = false
 		case x < 22:
 			evs = append(evs, event{Kind: "a", N: 1 + rnd.Intn(3)})
@@ -1288,7 +1457,7 @@ func genSequence(rnd *rand.Rand, idx int, maxLen int) []event {
 				off = true
 			}
 		case x < 94:
-			evs = append(evs, event{Kind: "on"})
+			evs = append(evs, genOnline(rnd))
 			off = false
 		case x < 96:
 			evs = append(evs, event{Kind: "land"})
@@ -1297,6 +1466,14 @@ func genSequence(rnd *rand.Rand, idx int, maxLen int) []event {
 		}
 	}
 	return evs
+}
+
+// genOnline: the follower's node-startup event; one in four registers another address.
+func genOnline(rnd *rand.Rand) event {
+	if rnd.Intn(4) == 0 {
+		return event{Kind: "on", Mode: "moved"}
+	}
+	return event{Kind: "on"}
 }
 
 func genFollowerStart(rnd *rand.Rand) event {
